@@ -44,6 +44,9 @@ RefOk(e) ==
   /\ ParseMatches(e.rel, v.rel) /\ ParseMatches(e.abs, v.abs)
   /\ ImplPartition(e.rel, e.s) /\ ImplPartition(e.abs, e.s)
   /\ PartPredicates(e.rel) /\ PartPredicates(e.abs)
+  \* Parse and ParseRelative agree: Parse is ParseRelative restricted to references with a host
+  /\ e.abs.ok => (e.rel.ok /\ e.abs.ref = e.rel.ref /\ e.abs.str = e.rel.str)
+  /\ (e.rel.ok /\ e.rel.ref[1] # <<>>) => e.abs.ok
   /\ e.abs.ok => e.abs.ref[1] # <<>>
   /\ IF "pred" \in DOMAIN e
      THEN e.pred = Export(v)     \* TLC-generated case: the exported prediction is the verdict
